@@ -240,29 +240,11 @@ func (f *frame) callStatic(callee *ssa.Function, bindings []Val, args []Val, st 
 	eng := c.eng
 	sk := shortKey(callee)
 	ord := f.callOrdinal(sk)
-	// call-site assertions of the enclosing contract
-	if f.spec != nil {
-		for _, a := range f.spec.Asserts {
-			if a.Callee == sk && a.Ordinal == ord {
-				env := f.hereEnv(st)
-				for i := range args {
-					env.vars[fmt.Sprintf("arg%d", i)] = args[i]
-				}
-				for i, p := range callee.Params {
-					if i < len(args) {
-						if _, clash := env.resolveIdent(p.Name()); !clash {
-							env.vars[p.Name()] = args[i]
-						}
-					}
-				}
-				tags := a.Tags
-				if len(tags) == 0 {
-					tags = c.tags
-				}
-				c.oblige("assert", fmt.Sprintf("%s#%d", sk, ord), tags, st.reach, env.evalBool(a.Expr), pos, a.Src)
-			}
-		}
+	var pnames []string
+	for _, p := range callee.Params {
+		pnames = append(pnames, p.Name())
 	}
+	f.callSiteHooks(sk, ord, args, pnames, st, pos)
 	f.useHints(fmt.Sprintf("call %s#%d", sk, ord), f.hereEnv(st))
 	fs := eng.specFor(callee)
 	if fs != nil && !fs.Inline {
@@ -289,6 +271,42 @@ func (f *frame) callStatic(callee *ssa.Function, bindings []Val, args []Val, st 
 		return r
 	}
 	return f.havocResults(callee.Signature, sk, st)
+}
+
+// functionResults: results of a "function" stub = uninterpreted functions fn_<name>_r<i> of all argument leaves.
+// Specs can refer to them with uf("fn_<name>_r<i>", sort, args...).
+func (c *FnCtx) functionResults(sig *types.Signature, name string, args []Val) []Val {
+	var targs []*Term
+	var sorts []string
+	for _, a := range args {
+		for _, l := range a.L {
+			targs = append(targs, l)
+			sorts = append(sorts, l.S)
+		}
+	}
+	var out []Val
+	for i := 0; i < sig.Results().Len(); i++ {
+		rt := sig.Results().At(i).Type()
+		ls := leavesOf(rt)
+		v := Val{T: rt, L: make([]*Term, len(ls))}
+		for j, l := range ls {
+			fn := fmt.Sprintf("fn_%s_r%d", sanitize(name), i)
+			if len(ls) > 1 {
+				fn += fmt.Sprintf("_%d", j)
+			}
+			if len(targs) == 0 {
+				v.L[j] = c.decls.Const(fn, l.Sort)
+			} else {
+				c.decls.Fun(fn, sorts, l.Sort)
+				v.L[j] = App(fn, l.Sort, targs...)
+			}
+		}
+		if p, ok := rt.Underlying().(*types.Pointer); ok {
+			v.Root = p.Elem()
+		}
+		out = append(out, v)
+	}
+	return out
 }
 
 // pureUF models a foreign function without stub whose arguments and results are all plain scalars
@@ -402,8 +420,8 @@ func (f *frame) callEnv(callee *ssa.Function, fs *FuncSpec, args []Val, results 
 				vars[p.Name()] = args[i]
 			}
 		}
-		if callee.Pkg != nil {
-			pkg = callee.Pkg.Pkg
+		if p := pkgOf(callee); p != nil {
+			pkg = p
 		}
 		sig := callee.Signature
 		for i := 0; i < sig.Results().Len() && i < len(results); i++ {
@@ -445,16 +463,50 @@ func (f *frame) callEnv(callee *ssa.Function, fs *FuncSpec, args []Val, results 
 		vars["result"] = results[0]
 	}
 	if pkg == nil {
-		pkg = f.fn.Pkg.Pkg
+		pkg = pkgOf(f.fn)
 	}
 	return &Env{c: c, vars: vars, cur: cur, old: old, pkg: pkg, guard: cur.reach}
+}
+
+// callSiteHooks processes the "before call" assertions and "assume call" assumptions of the enclosing contract.
+func (f *frame) callSiteHooks(sk string, ord int, args []Val, pnames []string, st *State, pos string) {
+	c := f.c
+	if f.spec == nil {
+		return
+	}
+	for _, a := range f.spec.Asserts {
+		if a.Callee != sk || a.Ordinal != ord {
+			continue
+		}
+		env := f.hereEnv(st)
+		for i := range args {
+			env.vars[fmt.Sprintf("arg%d", i)] = args[i]
+		}
+		for i, p := range pnames {
+			if i < len(args) {
+				if _, clash := env.resolveIdent(p); !clash {
+					env.vars[p] = args[i]
+				}
+			}
+		}
+		tags := a.Tags
+		if len(tags) == 0 {
+			tags = c.tags
+		}
+		if a.Assume {
+			c.assume(st.reach, env.evalBool(a.Expr))
+			c.assumed["assumed at call "+sk+": "+a.Src] = true
+			continue
+		}
+		c.oblige("assert", fmt.Sprintf("%s#%d", sk, ord), tags, st.reach, env.evalBool(a.Expr), pos, a.Src)
+	}
 }
 
 // hereEnv is the environment of the current program point of the caller (source variables by name).
 func (f *frame) hereEnv(st *State) *Env {
 	c := f.c
 	b := f.curBlock
-	return &Env{c: c, vars: f.ghostVars(), cur: st, old: c.entry, pkg: f.fn.Pkg.Pkg, guard: st.reach,
+	return &Env{c: c, vars: f.ghostVars(), cur: st, old: c.entry, pkg: pkgOf(f.fn), guard: st.reach,
 		lookup: func(name string) (Val, bool) {
 			return f.withState(st, func() (Val, bool) { return f.lookupVarAt(name, b, f.curIdx) })
 		}}
@@ -609,7 +661,12 @@ func (f *frame) applyContract(fs *FuncSpec, callee *ssa.Function, sig *types.Sig
 		}
 		c.famSort["$alloc"] = SInt
 	}
-	results := f.havocResults(sig, name, st)
+	var results []Val
+	if fs.Function {
+		results = c.functionResults(sig, name, args)
+	} else {
+		results = f.havocResults(sig, name, st)
+	}
 	env := f.callEnv(callee, fs, args, results, st, pre)
 	for k, v := range envPre.vars {
 		if strings.HasPrefix(k, "ghost:") {
@@ -666,7 +723,8 @@ func (f *frame) invoke(common *ssa.CallCommon, recv Val, args []Val, st *State, 
 		name = "interface"
 	}
 	key := name + "." + common.Method.Name()
-	f.callOrdinal(key)
+	iord := f.callOrdinal(key)
+	f.callSiteHooks(key, iord, args, nil, st, pos)
 	c.oblige("nil", "invoke "+key, c.tags, st.reach, Not(Eq(recv.L[0], IntT(0))), pos, "method call on nil interface")
 	sig := common.Method.Type().(*types.Signature)
 	// look for the interface contract in the interface's package, then globally
@@ -1015,4 +1073,20 @@ func (f *frame) copyOp(common *ssa.CallCommon, args []Val, st *State, instr ssa.
 		c.set(st, fam, Store(h, dst.L[0], a))
 	}
 	return intVal(n)
+}
+
+// pkgOf returns the types package a function belongs to (also for generic instances, closures, wrappers).
+func pkgOf(fn *ssa.Function) *types.Package {
+	for f := fn; f != nil; f = f.Parent() {
+		if f.Pkg != nil {
+			return f.Pkg.Pkg
+		}
+		if o := f.Origin(); o != nil && o.Pkg != nil {
+			return o.Pkg.Pkg
+		}
+	}
+	if fn.Object() != nil {
+		return fn.Object().Pkg()
+	}
+	return nil
 }
